@@ -179,4 +179,21 @@ def _run(pm: ProgramModel, ctx: Ctx, mb: ModelBuilder, cd: Codec) -> None:
               "constraint shapes that stress normal forms", ("constraint", "constraint-count"))
     # the AFM WORD token: a capital letter followed by letters and digits
     cd.large(mb, OPS, rename=lambda s_: (s_[0].upper() + s_[1:]).replace("_", ""))
+    # PAIRS: every two-way combination of position, name shape inside the WORD token, attribute domain kind, role in a
+    # constraint and operator on one feature
+    from ..interact import Fragment, sweep
+
+    def attach(mb_: ModelBuilder, f: AObj, vk: str, v: Any) -> None:
+        dom_, dflt_, null_ = cases[vk]
+        dom2 = AObj("Domain", range_list=[AObj("Range", min_value=r_._f["min_value"], max_value=r_._f["max_value"])
+                                          for r_ in dom_._f["range_list"]], element_list=list(dom_._f["element_list"]))
+        f._f["attributes"].append(mb_.attribute("cost", dflt_, f, domain=dom2, null=null_))
+    afm_names = {"plain": "Alpha1", "single-letter": "Q", "all-capitals": "GPS", "digits-tail": "X86", "camel": "HighSpeed",
+                 "operator-word-prefix": "ANDroid", "not-prefix": "Notes", "type-word-prefix": "Integers",
+                 "case-variant": "ALPHA1", "long": "Component" + "Abcdefghij" * 4}
+    fr = Fragment(names=afm_names, ops=tuple(OPS), abstract=False, mutex=True,
+                  values={k_: None for k_ in cases}, attr=attach,
+                  filler=lambda s_: (s_[0].upper() + s_[1:]).replace("_", "").replace("-", ""))
+    ctx.analysed.update({f"C06:pairwise-{k_}": v for k_, v in sweep(
+        cd, mb, fr, ("name", "root", "parent", "relation", "constraint", "constraint-count", "attribute")).items()})
     cd.finish_unowned()
